@@ -118,7 +118,8 @@ def bounded_data_received(opts):
     rnd = random.Random(opts.get("seed", 0))
     frame_pool = [(1, b""), (5, b"a"), (127, b"bc"), (128, b"d" * 3), (300, b"e" * 130), (16384, b"f" * 2)]
     bad = []
-    mks = [bytes, bytearray, lambda b: memoryview(bytes(b))]
+    # (a memoryview with a wider item size counts items, not bytes, in len(): the property says "any bytes-like type")
+    mks = [bytes, bytearray, lambda b: memoryview(bytes(b)), lambda b: memoryview(bytes(b)).cast("H") if len(b) and len(b) % 2 == 0 else memoryview(bytes(b))]
     n = 0
     for k in (1, 2, 3):
         for frames in itertools.product(frame_pool, repeat=k):
@@ -134,11 +135,11 @@ def bounded_data_received(opts):
             for cuts in cutsets:
                 n += 1
                 try:
-                    err = data_received_check(frames, cuts, mks[n % 3])
+                    err = data_received_check(frames, cuts, mks[n % 4])
                 except Exception as e:
                     err = f"raised {type(e).__name__}: {e}"
                 if err:
-                    bad.append({"frames": [(t, len(p)) for t, p in frames], "cuts": list(cuts), "chunk_type": ["bytes", "bytearray", "memoryview"][n % 3], "error": err[:200]})
+                    bad.append({"frames": [(t, len(p)) for t, p in frames], "cuts": list(cuts), "chunk_type": ["bytes", "bytearray", "memoryview", "memoryview.cast('H')"][n % 4], "error": err[:200]})
                     if len(bad) >= 3:
                         return bad
     bounded_data_received.count = n
